@@ -29,3 +29,5 @@ PROPERTY = PropertySpec(
 )
 
 PROPERTY.bounded.append(EncoderCrossCheck(_XT['C03']))
+
+PROPERTY.explanation += ' The tokeniser lemma and differential of C01 and the template field lemma (each class attribute filled from the field of its own name, in both templates) are part of this check.'
